@@ -286,6 +286,21 @@ class MdWorld:
         ev["files"] = [dict(t=f["t"], sub=f["sub"], rows=f["rows"]) for f in files]
         return ev
 
+    def write_other_fields(self, k, like):
+        """an attempt to write the existing index k again with field names the stored sample does not have (a second source
+        that describes the same instant differently): refused like any duplicate, the stored sample stays as it is.
+        `like`: a schema-conform sample, logged as the request (the model only looks at the index of a refused call)"""
+        ev = dict(ev="write", form="single", idxs=[k], fields=[self._describe_leaf(flatten(like)[p]) for p in self.cfg.schema], recs=[])
+        before = self.raw_keys()
+        data = {"other_source": 7, "note": "x", "sub2": {"q": np.arange(3)}}
+        _, exc = self._call(ev, lambda: self.writer.write(self.cfg.base + k, data))
+        files = self.raw_files()
+        after = {r[0] for f in files for r in f["rows"]}
+        ev["resp"] = "ok" if exc is None else "refused"
+        ev["stored"] = sorted((after - before) & {k})
+        ev["files"] = [dict(t=f["t"], sub=f["sub"], rows=f["rows"]) for f in files]
+        return ev
+
     def rf_write(self, nsamples, gap=0):
         if self.rfw is None:
             raise DriverError("no RF writer in this world")
